@@ -69,10 +69,22 @@ pub fn junk_alphabet() -> Vec<(&'static str, Vec<u8>)> {
         ("70 KiB of A", vec![b'A'; 70 * 1024]),
         ("70 KiB of 0xFF", vec![0xFF; 70 * 1024]),
         ("bad-parity frame", bad.hex().into_bytes()),
+        // pieces of wrapped records ('*hex;' / '@timestamp hex;'): a head without its ';', a tail, lone markers
+        ("*head of a frame", format!("*{}", &good[..14]).into_bytes()),
+        ("tail of a frame;", format!("{};", &good[14..]).into_bytes()),
+        ("@13 digits", b"@05DCF1CC15C35".to_vec()),
+        ("lone *", b"*".to_vec()),
+        ("lone @", b"@".to_vec()),
+        ("*6 digits", b"*8D4062".to_vec()),
+        // a marker, a ';' and a multi-byte character right before it
+        ("*digits 0xFF 0xFE;", { let mut v = format!("*{}", &good[..24]).into_bytes(); v.extend_from_slice(&[0xFF, 0xFE, b';']); v }),
+        ("@0x80;", vec![b'@', 0x80, b';']),
+        ("*cafe-acute;", "*caf\u{e9};".as_bytes().to_vec()),
+        ("*27 digits e-acute ;", format!("*{}\u{e9}x;", &good[..27]).into_bytes()),
     ]
 }
-const NON_UTF8: [usize; 5] = [8, 9, 11, 12, 14];
-const SUB: [usize; 6] = [0, 3, 6, 8, 12, 15];
+const NON_UTF8: [usize; 7] = [8, 9, 11, 12, 14, 22, 23];
+const SUB: [usize; 8] = [0, 3, 6, 8, 12, 15, 16, 17];
 
 fn build(stream: &[Vec<u8>], ins: &[(usize, usize)], junk: &[(&'static str, Vec<u8>)]) -> Vec<u8> {
     // ins: (position 0..=len, junk index), sorted by position
@@ -318,6 +330,34 @@ fn run(ctx: &mut Ctx) {
                         check_file(ctx, &cfg, &format!("embed{n}#{k}"), &stream, &clean, &[(1, 0)], &custom);
                     }
                 }
+            }
+        }
+    }
+    // the same frames in the wrapped / decorated line forms a feed may use (trailing blank, tab, CR, markers):
+    // same table, alone and with every junk symbol after every line
+    {
+        let plain: Vec<Vec<u8>> = vec![vf[0].clone(), vf[5].clone(), vf[2].clone(), vf[3].clone()];
+        let (_, clean) = run_clean(&cfg, &plain);
+        let forms: Vec<(&str, Box<dyn Fn(&[u8]) -> Vec<u8>>)> = vec![
+            ("*hex;", Box::new(|h: &[u8]| [b"*", h, b";"].concat())),
+            ("@ts hex;", Box::new(|h: &[u8]| [b"@0123456789AB", h, b";"].concat())),
+            ("*hex; + blank", Box::new(|h: &[u8]| [b"*", h, b"; "].concat())),
+            ("*hex; + tab", Box::new(|h: &[u8]| [b"*", h, b";\t"].concat())),
+            ("*hex (no ;)", Box::new(|h: &[u8]| [b"*", h].concat())),
+            ("@ts hex (no ;)", Box::new(|h: &[u8]| [b"@0123456789AB", h].concat())),
+            ("hex CR", Box::new(|h: &[u8]| [h, b"\r"].concat())),
+            ("blank hex blank", Box::new(|h: &[u8]| [b" ", h, b" "].concat())),
+        ];
+        for (fi, (fname, form)) in forms.iter().enumerate() {
+            job += 1;
+            if !ctx.mine(job) {
+                continue;
+            }
+            let dec: Vec<Vec<u8>> = plain.iter().map(|l| form(l)).collect();
+            ctx.count("decorated-stream");
+            check_file(ctx, &cfg, &format!("decorated#{fi} {fname}"), &dec, &clean, &[], &junk);
+            for ins in positions(dec.len(), 1, &all) {
+                check_file(ctx, &cfg, &format!("decorated#{fi} {fname}"), &dec, &clean, &ins, &junk);
             }
         }
     }
